@@ -200,6 +200,7 @@ impl TCheck for C01 {
                 },
                 dedup: false,
                 aux_seed: rng.next_u64(),
+                opts: Default::default(),
             });
             let dir2 = dir.clone();
             Prepared {
